@@ -225,11 +225,15 @@ func c08Build(r *Rng, p gridPt) *Scenario {
 		// whole storage chunks contain no match at all
 		for i := 0; i < p.r; i++ {
 			init = append(init, KV{fmt.Sprintf("k%03d", i), fmt.Sprintf("%04d", (i*37+11)%1000+i*1000)})
-			for j := 0; j < r.Intn(2*p.b+3); j++ {
+			nz := 2*p.b + 3
+			if p.r > 120 && nz > 6 {
+				nz = 6 // large results: keep the store within a few thousand pairs
+			}
+			for j := 0; j < r.Intn(nz); j++ {
 				init = append(init, KV{fmt.Sprintf("k%03d_%02d", i, j), "skip"})
 			}
 		}
-		for j := 0; j < r.Intn(2*p.b+2); j++ {
+		for j := 0; j < r.Intn(2*p.b+2) && j < 80; j++ {
 			init = append(init, KV{fmt.Sprintf("k_%02d", j), "skip"})
 		}
 		switch fam {
@@ -298,6 +302,16 @@ func genC08(seed uint64, i int, tier string) *Scenario {
 	n := pick(r, []int{0, 1, 2, b - 1, b, b + 1, rr, rr - s, rr - s + 1, r.Range(0, rr+1)})
 	if n < 0 {
 		n = 0
+	}
+	if r.Chance(0.003) {
+		// scale: result sizes and batch sizes around 256 / 1000
+		b = pick(r, []int{64, 255, 256, 257, 1000})
+		rr = pick(r, []int{255, 256, 257, 300, 520, 1001})
+		s = pick(r, []int{0, 1, 255, 256, 257, rr - 1, rr, b, b + 1})
+		n = pick(r, []int{1, 255, 256, 257, rr, rr - s, 2})
+		if n < 0 {
+			n = 0
+		}
 	}
 	return c08Build(r, gridPt{fam: i % len(c08Families), mode: (i / len(c08Families)) % 2, b: b, r: rr, s: s, n: n})
 }
